@@ -268,6 +268,22 @@ Section AttProofs.
     destruct f; try discriminate; rewrite IH by exact H2; reflexivity.
   Qed.
 
+  (* attachment i contributes the same whatever stands before and after it *)
+  Lemma contribution_context_free l1 a l2 :
+    forallb (quiet T lower mime R run) (l1 ++ a :: l2) = true ->
+    fst (iterate_supported_attachments T lower mime R run (l1 ++ a :: l2)) =
+      fst (iterate_supported_attachments T lower mime R run l1) ++ contribution T lower mime R run a
+      ++ fst (iterate_supported_attachments T lower mime R run l2)
+    /\ fst (iterate_supported_attachments T lower mime R run [a]) = contribution T lower mime R run a.
+  Proof.
+    intro H. pose proof H as H0. rewrite forallb_app in H. apply andb_true_iff in H as [H1 H2].
+    cbn [forallb] in H2. apply andb_true_iff in H2 as [Ha H2].
+    rewrite (iterate_concat _ H0), (iterate_concat _ H1), (iterate_concat _ H2).
+    assert (Hs : forallb (quiet T lower mime R run) [a] = true) by (cbn [forallb]; rewrite Ha; reflexivity).
+    rewrite (iterate_concat _ Hs). cbn [fst map List.concat]. rewrite map_app, concat_app. cbn [map List.concat].
+    rewrite app_nil_r. split; reflexivity.
+  Qed.
+
   (* the unrepaired gate: an attachment with a supported NAME but an unlisted MIME type is dropped *)
   Lemma unrepaired_gate a :
     a_flag a = false -> iterate_supported_attachments_unrepaired T lower mime R run [a] = ([], Completed).
